@@ -53,14 +53,11 @@ Definition no_rs (k : list step) := forallb (fun x => negb (isRs x)) k.
 
 (* no operation in flight may destroy what another operation in flight works on;
    the offline resync never runs next to anything *)
-Fixpoint compat_pool (l : list (list step)) : bool :=
-  match l with
-  | [] => true
-  | k :: r =>
-      no_rs k
-      && forallb (fun k' => disj (destr_c k) (touch_c k') && disj (destr_c k') (touch_c k)) r
-      && compat_pool r
-  end.
+Definition compat_pool (l : list (list step)) : bool :=
+  forallb no_rs l
+  && forallb (fun i => forallb (fun j => (i =? j) || disj (destr_c (nth i l [])) (touch_c (nth j l [])))
+                               (seq 0 (length l)))
+             (seq 0 (length l)).
 
 Definition bad_ev (c : cfg) (p : pstate) (e : event) : bool :=
   match e with
@@ -177,7 +174,8 @@ Qed.
 Lemma okc_head_need s x r : okc s (x :: r) -> need s x.
 Proof.
   intros H. inversion H; subst; simpl; auto.
-  inversion H1; auto.
+  - match goal with HF : Forall _ (_ :: _) |- _ => inversion HF; auto end.
+  - destruct x; simpl; auto; simpl in *; discriminate.
 Qed.
 
 Lemma okc_stable c s x k :
@@ -192,14 +190,13 @@ Proof.
     + intros b Hb. apply D1. eapply in_destr_c; eauto.
     + intros b Hb. apply D2. eapply in_touch_c; eauto.
   - apply okPut0.
-  - apply okPut1. change (need (fst (fst (exec c s x))) (SMetaPut a f)). apply need_stable; auto.
-    + intros b Hb. apply D1. simpl. rewrite app_nil_r. exact Hb.
-    + intros b Hb. apply D2. simpl. rewrite app_nil_r. exact Hb.
+  - apply okPut1. change (need (fst (fst (exec c s x))) (SMetaPut a f)). apply need_stable; auto;
+      try (intros b Hb; first [apply D1 | apply D2]; simpl; rewrite ?app_nil_r; exact Hb).
   - apply okFl0.
   - apply okFl1.
-  - apply okFl2. change (need (fst (fst (exec c s x))) (SWcDelF a)). apply need_stable; auto.
-    + intros b Hb. simpl in Hb. contradiction.
-    + intros b Hb. apply D2. simpl. exact Hb.
+  - apply okFl2. change (need (fst (fst (exec c s x))) (SWcDelF a)). apply need_stable; auto;
+      try (intros b Hb; simpl in Hb; contradiction);
+      try (intros b Hb; apply D2; simpl; exact Hb).
   - destruct k as [|y k']; [apply okD; [reflexivity|constructor]|].
     simpl in H, Hk. apply andb_prop in H as [H _]. apply andb_prop in Hk as [Hk _].
     rewrite H in Hk. discriminate.
@@ -209,27 +206,120 @@ Definition pinv (p : pstate) : Prop := inv (pst p) /\ Forall (okc (pst p)) (pool
 
 Lemma compat_pool_nth l i j :
   compat_pool l = true -> i <> j -> i < length l -> j < length l ->
-  no_rs (nth i l []) = true /\ disj (destr_c (nth i l [])) (touch_c (nth j l [])) = true
-  /\ disj (destr_c (nth j l [])) (touch_c (nth i l [])) = true.
+  no_rs (nth i l []) = true /\ disj (destr_c (nth i l [])) (touch_c (nth j l [])) = true.
 Proof.
-  revert i j. induction l as [|k r IH]; intros i j H Hij Hi Hj; simpl in *; [lia|].
-  apply andb_prop in H as [H H3]. apply andb_prop in H as [H1 H2].
-  rewrite forallb_forall in H2.
-  destruct i, j; try lia.
-  - assert (In (nth j r []) r) by (apply nth_In; lia).
-    specialize (H2 _ H). apply andb_prop in H2 as [A B]. auto.
-  - assert (In (nth i r []) r) by (apply nth_In; lia).
-    specialize (H2 _ H). apply andb_prop in H2 as [A B].
-    destruct (IH i (S i)) as (N & _); auto; try lia.
-    + (* need some j' <> i inside r; if r has one element use itself *)
-      destruct r as [|k0 r0]; simpl in *; [lia|].
-      destruct i; simpl.
-      * apply andb_prop in H3 as [H3 _]. apply andb_prop in H3 as [H3 _].
-        (* no_rs of head of r *) repeat split; auto.
-      * repeat split; auto.
-        apply andb_prop in H3 as [_ H3].
-        clear - H3 Hi. revert i Hi. induction r0 as [|k1 r1 IH1]; intros i Hi; simpl in *; [lia|].
-        apply andb_prop in H3 as [H3 H4]. apply andb_prop in H3 as [H3 _].
-        destruct i; auto. apply IH1; auto. lia.
-    + (* unreachable *) idtac.
-Abort.
+  unfold compat_pool. intros H Hij Hi Hj. apply andb_prop in H as [H1 H2]. split.
+  - rewrite forallb_forall in H1. apply H1. now apply nth_In.
+  - rewrite forallb_forall in H2. specialize (H2 i). rewrite forallb_forall in H2.
+    assert (Ii : In i (seq 0 (length l))) by (apply in_seq; lia).
+    assert (Ij : In j (seq 0 (length l))) by (apply in_seq; lia).
+    specialize (H2 Ii j Ij). apply orb_prop in H2 as [E|E]; auto.
+    apply Nat.eqb_eq in E. contradiction.
+Qed.
+
+Lemma set_nth_length {A} (l : list A) i v : length (set_nth l i v) = length l.
+Proof. revert i; induction l; intros [|i]; simpl; auto. Qed.
+
+Lemma nth_set_nth_same {A} (l : list A) i v d : i < length l -> nth i (set_nth l i v) d = v.
+Proof. revert i; induction l; intros [|i] H; simpl in *; try lia; auto. apply IHl. lia. Qed.
+
+Lemma nth_set_nth_other {A} (l : list A) i j v d : i <> j -> nth j (set_nth l i v) d = nth j l d.
+Proof. revert i j; induction l; intros [|i] [|j] H; simpl; auto; try lia. Qed.
+
+Lemma Forall_nth_iff {A} (P : A -> Prop) (l : list A) d :
+  Forall P l <-> (forall i, i < length l -> P (nth i l d)).
+Proof.
+  split.
+  - intros H i Hi. rewrite Forall_forall in H. apply H. now apply nth_In.
+  - intros H. apply Forall_forall. intros x Hx. apply (In_nth _ _ d) in Hx as (i & Hi & <-). auto.
+Qed.
+
+Lemma papply_ok c p e :
+  pinv p -> compat_pool (pool p) = true -> bad_ev c p e = false -> pinv (papply c p e).
+Proof.
+  intros [Hi Hp] Hc Hb. destruct e as [o|i]; simpl.
+  - split; auto. apply Forall_app; split; auto. constructor; [apply init_op_ok|constructor].
+  - destruct (nth i (pool p) []) as [|x r] eqn:En; [split; auto|].
+    assert (Li : i < length (pool p)).
+    { destruct (Nat.lt_ge_cases i (length (pool p))); auto. rewrite nth_overflow in En by auto. discriminate. }
+    assert (Hki : okc (pst p) (x :: r)).
+    { rewrite <- En. apply (proj1 (Forall_nth_iff _ _ [])); auto. }
+    assert (Hs : rb_safe c (pst p) x).
+    { simpl in Hb. rewrite En in Hb. destruct x; simpl; auto. }
+    destruct (exec_ok c (pst p) x r Hi Hki Hs) as [Hi' Hk'].
+    split; simpl; auto.
+    apply (Forall_nth_iff _ _ []). rewrite set_nth_length. intros j Lj.
+    destruct (Nat.eq_dec i j) as [<-|N].
+    + rewrite nth_set_nth_same by auto. exact Hk'.
+    + rewrite nth_set_nth_other by auto.
+      destruct (compat_pool_nth _ i j Hc N Li Lj) as [Ni Dij].
+      destruct (compat_pool_nth _ j i Hc (not_eq_sym N) Lj Li) as [Nj Dji].
+      rewrite En in Ni, Dij, Dji.
+      assert (Rx : isRs x = false).
+      { simpl in Ni. apply andb_prop in Ni as [Ni _]. now apply negb_true_iff. }
+      apply okc_stable; auto.
+      * now apply okc_head_need in Hki.
+      * apply (proj1 (Forall_nth_iff _ _ [])); auto.
+      * intros b Hb1 Hb2. eapply disj_spec; [exact Dji|exact Hb1|].
+        eapply in_touch_c; [left; reflexivity|exact Hb2].
+      * intros b Hb1 Hb2. eapply disj_spec; [exact Dij| |exact Hb1].
+        eapply in_destr_c; [left; reflexivity|exact Hb2].
+Qed.
+
+Lemma run_from_ok c p evs :
+  pinv p -> compat_from c p evs = true -> clean_from c p evs = true -> pinv (fold_left (papply c) evs p).
+Proof.
+  revert p; induction evs as [|e r IH]; intros p Hp Hc Hb; simpl in *; auto.
+  apply andb_prop in Hc as [Hc1 Hc2]. apply andb_prop in Hb as [Hb1 Hb2].
+  apply IH; auto. apply papply_ok; auto. now apply negb_true_iff.
+Qed.
+
+Lemma pinit_ok : pinv pinit.
+Proof. split; simpl; [intros a H; discriminate|constructor]. Qed.
+
+(* C15 for interleavings that keep the pool compatible *)
+Theorem inter_available_readable c evs a :
+  compat_run c evs = true -> clean_events c evs = true ->
+  let s := pst (prun c evs) in
+  available c s a = true -> mk s a <> 1 -> blob s a = true \/ wc s a = true.
+Proof.
+  intros Hc Hb s Ha Hm. destruct (run_from_ok c pinit evs pinit_ok Hc Hb) as [Hi _].
+  unfold available in Ha. apply Nat.eqb_eq in Ha. apply exists_ent in Ha.
+  assert (P : protected s a = true).
+  { unfold protected. rewrite Ha. simpl. apply negb_true_iff. now apply Nat.eqb_neq. }
+  apply Hi in P. unfold has_data in P. now apply orb_prop in P.
+Qed.
+
+(* ... and not for all of them: a put racing with a delete of the same address
+   (blob written, then the delete removes metadata and blob, then the put indexes) *)
+Definition race_cfg : cfg := {| objs := [{| okind := KReg; otgt := 0; oexp := 0 |}]; wcen := false |}.
+Definition race_events : list event :=
+  [EStart (OPut 0 false); EAdv 0; EStart (ODel [0]); EAdv 1; EAdv 1; EAdv 0].
+
+Theorem inter_refuted : exists c evs a,
+  clean_events c evs = true /\
+  let s := pst (prun c evs) in
+  available c s a = true /\ mk s a <> 1 /\ blob s a = false /\ wc s a = false.
+Proof.
+  exists race_cfg, race_events, 0. vm_compute. repeat split; auto; discriminate.
+Qed.
+
+(* the witness is exactly what the compatibility premise excludes *)
+Lemma race_not_compat : compat_run race_cfg race_events = false.
+Proof. vm_compute. reflexivity. Qed.
+
+(* non-vacuity of the partial theorem: a flush of one object, a put of a second
+   one and a delete of a third one, interleaved step by step *)
+Definition ok_cfg : cfg :=
+  {| objs := [{| okind := KReg; otgt := 0; oexp := 0 |}; {| okind := KReg; otgt := 0; oexp := 0 |};
+              {| okind := KReg; otgt := 0; oexp := 0 |}]; wcen := true |}.
+Definition ok_events : list event :=
+  [EStart (OPut 0 false); EAdv 0; EAdv 0; EStart (OPut 2 false); EAdv 1; EAdv 1;
+   EStart (OFlush 0); EStart (OPut 1 false); EStart (ODel [2]);
+   EAdv 2; EAdv 3; EAdv 4; EAdv 2; EAdv 4; EAdv 3; EAdv 2; EAdv 4].
+Lemma ok_events_admissible :
+  compat_run ok_cfg ok_events = true /\ clean_events ok_cfg ok_events = true
+  /\ available ok_cfg (pst (prun ok_cfg ok_events)) 0 = true
+  /\ available ok_cfg (pst (prun ok_cfg ok_events)) 1 = true
+  /\ available ok_cfg (pst (prun ok_cfg ok_events)) 2 = false.
+Proof. vm_compute. auto. Qed.
